@@ -361,7 +361,9 @@ C08_L(cfg, opts, lg) ==
 
 \* =========================== C10 ===========================================
 C10_A(cfg, opts, ph, s0, s1, b) ==
-  << <<"C10.A.no-allocation", ph \in {"alloc_task", "allocated"} /\ ~Working(opts, s1) =>
+  << <<"C10.A.no-start", ~Working(opts, s1) /\ ~opts.autoAbs /\ ph \in {"presence", "alloc_task", "allocated", "started", "cost", "performed", "recorded"} =>
+          \A t \in Tasks(cfg): s1.ts[t] = s0.ts[t]>>,
+     <<"C10.A.no-allocation", ph \in {"alloc_task", "allocated"} /\ ~Working(opts, s1) =>
           s1.aw = s0.aw /\ s1.af = s0.af /\ s1.wt = s0.wt /\ s1.ft = s0.ft>>,
      <<"C10.A.no-progress", ph = "performed" /\ ~Working(opts, s1) =>
           \A t \in Tasks(cfg):
@@ -382,7 +384,11 @@ C10_A(cfg, opts, ph, s0, s1, b) ==
 C10_S(cfg, opts, ph, s) ==
   << <<"C10.S.all-absent", Settled(ph) /\ ~Working(opts, s) =>
           /\ \A w \in Workers(cfg): s.ws[w] = "ABSENCE"
-          /\ \A f \in Facs(cfg): s.fs[f] = "ABSENCE">> >>
+          /\ \A f \in Facs(cfg): s.fs[f] = "ABSENCE">>,
+     \* automatic tasks progress at absence steps exactly when the flag is set: with the flag an
+     \* automatic task (not bound to a component) that is ready runs, without it nothing starts
+     <<"C10.S.auto-runs", Settled(ph) /\ ~Working(opts, s) /\ opts.autoAbs =>
+          \A t \in Tasks(cfg): cfg.tasks[t].auto /\ cfg.tasks[t].comp = 0 => s.ts[t] # "READY">> >>
 C10_L(cfg, opts, lg) ==
   << <<"C10.L.absence-rows", \A k \in 1..Len(lg.pcost): Mem(lg.absL, k - 1) =>
           /\ lg.pcost[k] = 0 /\ lg.ocost[k] = 0
@@ -490,6 +496,11 @@ C08_H(cfg, run) ==
 
 \* logs of a backward run in forward time
 ForwardLogs(run) == IF run.args.reverse THEN run.final.lg ELSE ReverseLogsF(run.final.lg)
+\* in forward time no task is WORKING before all its FS predecessors have stopped being WORKING
+C17_FsOrder(cfg, lg) ==
+  \A d \in ToSet(cfg.deps): d[3] = "FS" =>
+     \A k \in 1..Len(lg.ts[d[2]]):
+        lg.ts[d[2]][k] = "WORKING" => \A j \in k..Len(lg.ts[d[1]]): lg.ts[d[1]][j] # "WORKING"
 C17_H(cfg, run) ==
   LET o == run.obs
   IN << <<"C17.H.structure", o.struct_after.tin = o.struct_before.tin /\ o.struct_after.tout = o.struct_before.tout
@@ -499,10 +510,7 @@ C17_H(cfg, run) ==
         <<"C17.H.ends", run.ret \in {"ok", "abort"}>>,
         <<"C17.L.aligned", run.ret = "ok" => AllTrue(C08_L(cfg, run.opts, run.final.lg))>>,
         <<"C17.L.fs-order", run.ret = "ok" /\ run.final.lg.status = "SUCCESS" =>
-              LET lg == ForwardLogs(run)
-              IN \A d \in ToSet(cfg.deps): d[3] = "FS" =>
-                    \A k \in 1..Len(lg.ts[d[2]]):
-                       lg.ts[d[2]][k] = "WORKING" => \A j \in k..Len(lg.ts[d[1]]): lg.ts[d[1]][j] # "WORKING">> >>
+              C17_FsOrder(cfg, ForwardLogs(run))>> >>
 
 C18_NoWorkRow(cfg, lg, s) ==
   LET k == s + 1
